@@ -38,7 +38,18 @@ pub fn observer(e: Event) {
                 None => Ev::StoreDesc { index, addr: u64::MAX, len: 0, flags: 0, next: 0 },
             }
         }
-        Event::Store { what, index, value } => Ev::Store { what, index, val: value },
+        Event::Store { what, index, value } => {
+            // never trust the value the hook reports: read what is really in device-visible memory
+            let q = CURQ.with(|c| *c.borrow());
+            let mem = match what {
+                1 => hal::dev_read_u16(q.drv + 4 + 2 * index as u64).ok().map(|v| v as u64),
+                2 => hal::dev_read_u16(q.drv + 2).ok().map(|v| v as u64),
+                3 => hal::dev_read_u16(q.drv).ok().map(|v| v as u64),
+                4 => hal::dev_read_u16(q.drv + 4 + 2 * q.size as u64).ok().map(|v| v as u64),
+                _ => Some(value),
+            };
+            Ev::Store { what, index, val: if q.size == 0 { value } else { mem.unwrap_or(u64::MAX) } }
+        }
         Event::Fence => Ev::Fence,
         Event::Spin(site) => Ev::Spin(site),
     };
@@ -92,6 +103,7 @@ pub fn enc_qevents(evs: &[Ev], head: u128) -> Vec<u128> {
             Ev::StoreDesc { index, addr, len, flags, next } => o.extend([5, *index as u128, *addr as u128, *len as u128, *flags as u128, *next as u128]),
             Ev::Store { what: 1, index, val } => o.extend([6, *index as u128, *val as u128]),
             Ev::Fence => o.push(7),
+            Ev::Notify(_) => o.push(11),
             Ev::Store { what: 2, val, .. } => o.extend([8, *val as u128]),
             Ev::Store { what: 3, val, .. } => o.extend([9, *val as u128]),
             Ev::Store { what: 4, val, .. } => o.extend([10, *val as u128]),
@@ -283,6 +295,11 @@ impl<const N: usize> Rig<N> {
         ctx.tr.line(152, &m, &[1]);
         if ok {
             self.last_used = self.last_used.wrapping_add(1);
+            if self.event_idx {
+                // C05: the used-event index the device reads is re-armed at the next completion
+                let ue = hal::dev_read_u16(self.a.drv + 4 + 2 * N as u64).unwrap();
+                ctx.tr.line(157, &[ue as u128, self.last_used as u128], &[1]);
+            }
             let sub = self.subs.remove(k);
             for b in sub.ins.iter() { BUFIDS.with(|m| m.borrow_mut().remove(&(b.as_ptr() as usize))); }
             for b in sub.outs.iter() { BUFIDS.with(|m| m.borrow_mut().remove(&(b.as_ptr() as usize))); }
